@@ -23,11 +23,12 @@ const (
 
 // CaseJS is the self-contained replayable case: a workload and one crash point.
 type CaseJS struct {
-	Property string `json:"property"`
-	Workload string `json:"workload"`
-	Spec     Spec   `json:"spec"`
-	Mode     string `json:"mode"` // "after" k: stop right after the k-th mutating call returned; "before" k: right before it is forwarded
-	K        int    `json:"k"`
+	Property string    `json:"property"`
+	Workload string    `json:"workload"`
+	Spec     Spec      `json:"spec"`
+	Mode     string    `json:"mode"` // "after" k: stop right after the k-th mutating call returned; "before" k: right before it is forwarded
+	K        int       `json:"k"`
+	Conc     *ConcCase `json:"conc,omitempty"` // mode "conc": two chains finalize concurrently
 }
 
 type point struct {
